@@ -55,10 +55,10 @@ func newStressWorld(dir string) (*stressWorld, error) {
 		"big":   bigTemplate(),
 	}}
 	files := map[string]string{
-		"dirA/main.twig": "A:{% include './part.twig' %}:{{ x }}",
-		"dirA/part.twig": "partA({{ x }})",
-		"dirB/main.twig": "B:{% include './part.twig' %}:{{ x }}",
-		"dirB/part.twig": "partB({{ x }})",
+		"dirA/main.twig":     "A:{% include './part.twig' %}:{{ x }}",
+		"dirA/part.twig":     "partA({{ x }})",
+		"dirB/main.twig":     "B:{% include './part.twig' %}:{{ x }}",
+		"dirB/part.twig":     "partB({{ x }})",
 		"dirB/sub/deep.twig": "D:{% include '../part.twig' %}{% extends '../layout.twig' %}",
 		"dirB/layout.twig":   "L[{% block bb %}l{% endblock %}{{ x }}]",
 		"dirB/sub/kid.twig":  "{% extends '../layout.twig' %}{% block bb %}kid{{ x }}{% endblock %}",
